@@ -351,6 +351,11 @@ func ruleMergeDispatch(c *Ctx, r *R) {
 			// dominated, inside the loop, by the false edge of len(cases) == 0
 			guarded := false
 			arg := call.Call.Args[0]
+			argP := valueProv(arg, provEnv{chain: dd.calls}).String()
+			sameList := func(v ssa.Value) bool { // the very list handed to reflect.Select, possibly seen from the caller of a helper
+				return v == arg || valueProv(v, provEnv{}).String() == argP
+			}
+			b := dd.site.Block() // the place in Merge itself (the call may sit in a helper: open.recv())
 			for _, g := range guardsOf(b) {
 				cf, ok := g.asCmp()
 				if !ok {
@@ -360,7 +365,7 @@ func ruleMergeDispatch(c *Ctx, r *R) {
 				if !isLen {
 					continue
 				}
-				if bi, ok := lc.Call.Value.(*ssa.Builtin); !ok || bi.Name() != "len" || lc.Call.Args[0] != arg {
+				if bi, ok := lc.Call.Value.(*ssa.Builtin); !ok || bi.Name() != "len" || !sameList(lc.Call.Args[0]) {
 					continue
 				}
 				if (cf.op == token.NEQ && isConstInt(cf.y, 0)) || (cf.op == token.GTR && isConstInt(cf.y, 0)) || (cf.op == token.GEQ && isConstInt(cf.y, 1)) {
@@ -387,7 +392,7 @@ func ruleMergeDispatch(c *Ctx, r *R) {
 					if !isLen {
 						continue
 					}
-					if bi, ok := lc.Call.Value.(*ssa.Builtin); !ok || bi.Name() != "len" || lc.Call.Args[0] != arg {
+					if bi, ok := lc.Call.Value.(*ssa.Builtin); !ok || bi.Name() != "len" || !sameList(lc.Call.Args[0]) {
 						continue
 					}
 					if (cf.op == token.EQL && isConstInt(cf.y, 0)) || (cf.op == token.LEQ && isConstInt(cf.y, 0)) || (cf.op == token.LSS && isConstInt(cf.y, 1)) {
@@ -467,11 +472,65 @@ func ruleMergeDispatch(c *Ctx, r *R) {
 		if !ok || argOf(snd.Chan, dd.calls) != ssa.Value(fn.Params[0]) {
 			continue
 		}
-		if strings.Contains(path(snd.X), "Interface") {
+		fromSelect := strings.Contains(path(snd.X), "Interface")
+		if !fromSelect {
+			// the reflect.Select call and the unboxing live in a helper (item, chosen, ok := open.recv())
+			for _, lf := range valueLeaves(snd.X, dd.calls, 0) {
+				if strings.Contains(path(lf.v), "Interface") {
+					fromSelect = true
+				}
+			}
+		}
+		if fromSelect {
 			for _, g := range guardsOf(b) {
 				if v, val := g.boolVal(); val {
-					if ex, ok := v.(*ssa.Extract); ok && ex.Index == 2 {
+					ex, ok := v.(*ssa.Extract)
+					if !ok {
+						continue
+					}
+					if ex.Index == 2 && !callsReflectSelectHelper(ex.Tuple) {
 						gen = true
+					}
+					if hc, ok := ex.Tuple.(*ssa.Call); ok && callsReflectSelectHelper(hc) {
+						// the helper's boolean result is reflect.Select's ok (or a constant on the paths where that is known)
+						all, any := true, false
+						isSelOK := func(v ssa.Value) bool {
+							e2, ok := v.(*ssa.Extract)
+							if !ok || e2.Index != 2 {
+								return false
+							}
+							sc, ok := e2.Tuple.(*ssa.Call)
+							return ok && sc.Call.StaticCallee() != nil && sc.Call.StaticCallee().Name() == "Select"
+						}
+						instrs(origin(staticCallee(&hc.Call)), func(hb *ssa.BasicBlock, _ int, in2 ssa.Instruction) {
+							ret, ok := in2.(*ssa.Return)
+							if !ok || ex.Index >= len(ret.Results) {
+								return
+							}
+							any = true
+							rv := returnedValue(ret, ex.Index)
+							if isSelOK(rv) {
+								return
+							}
+							k, isK := rv.(*ssa.Const)
+							if !isK || k.Value == nil {
+								all = false
+								return
+							}
+							want := k.Value.String() == "true"
+							okG := false
+							for _, g2 := range guardsOf(hb) {
+								if v2, val2 := g2.boolVal(); isSelOK(v2) && val2 == want {
+									okG = true
+								}
+							}
+							if !okG {
+								all = false
+							}
+						})
+						if all && any {
+							gen = true
+						}
 					}
 				}
 			}
@@ -1010,4 +1069,25 @@ func derefType(t types.Type) types.Type {
 		return p.Elem()
 	}
 	return t
+}
+
+// callsReflectSelectHelper: v is a call of an in-package helper whose body calls reflect.Select.
+func callsReflectSelectHelper(v ssa.Value) bool {
+	call, ok := v.(*ssa.Call)
+	if !ok {
+		return false
+	}
+	cal := staticCallee(&call.Call)
+	if cal == nil || cal.Blocks == nil || call.Parent() == nil || rootFn(origin(cal)).Pkg != rootFn(call.Parent()).Pkg {
+		return false
+	}
+	res := false
+	instrs(origin(cal), func(_ *ssa.BasicBlock, _ int, in ssa.Instruction) {
+		if c2, ok := in.(*ssa.Call); ok {
+			if f := c2.Call.StaticCallee(); f != nil && f.Name() == "Select" && f.Pkg != nil && f.Pkg.Pkg.Path() == "reflect" {
+				res = true
+			}
+		}
+	})
+	return res
 }
